@@ -10,4 +10,4 @@ CONSTANTS
  RecordHist = FALSE
  Monitor = TRUE
  FullProduct = FALSE
-INVARIANTS ContentLengthGone MonitorStrict
+INVARIANTS ContentLengthGone MonitorFinal
